@@ -110,6 +110,10 @@ func (w *docWalker) walk(p *synth.Pkg, t *synth.TypeRef, doc any, set func(any),
 		if len(arr) > 0 {
 			w.add("array_length", path, root, func() { set(arr[:len(arr)-1]) })
 			w.add("array_length", path, root, func() { set(append(append([]any{}, arr...), deepCopyJSON(arr[len(arr)-1]))) })
+			w.add("array_length", path, root, func() { set([]any{}) }) // emptied: the one length slices special-case
+			if len(arr) > 2 {
+				w.add("array_length", path, root, func() { set(arr[:1]) })
+			}
 		}
 		for i := range arr {
 			if i >= 3 {
@@ -384,7 +388,7 @@ func c04Check(c c04Case, r *h.Rec) error {
 func TestC04(t *testing.T) {
 	h.Main(t, h.Prop[c04Case]{
 		ID: "C04",
-		Rule: "rapid model files with >= 1 jsonb column (named structs, maps, slices of structs / unions / string enums, nested unions, enums, fixed arrays, time) -> sql.Generate parsed and its validators interpreted by internal/pgx (PL/pgSQL subset, jsonb operators, SQL three-valued logic); documents come from the compiled Go package (values drawn by rapid in the child, through the generated union wrappers); accept side: the column CHECK is never false nor an error; reject side: up to 5 type-directed single-point corruptions per document (unknown object key in a struct, wrong JSON kind, unknown union Kind, non-member enum value, fixed array one element short/long; positions chosen by rapid selectors) must make the CHECK false (or raise); plus the static closure of validator calls; " +
+		Rule: "rapid model files with >= 1 jsonb column (named structs, maps, slices of structs / unions / string enums, nested unions, enums, fixed arrays, time) -> sql.Generate parsed and its validators interpreted by internal/pgx (PL/pgSQL subset, jsonb operators, SQL three-valued logic); documents come from the compiled Go package (values drawn by rapid in the child, through the generated union wrappers); accept side: the column CHECK is never false nor an error; reject side: up to 5 type-directed single-point corruptions per document (unknown object key in a struct, wrong JSON kind, unknown union Kind, non-member enum value, fixed array one element short/long, emptied or cut to one element; positions chosen by rapid selectors) must make the CHECK false (or raise); plus the static closure of validator calls; " +
 			"non-trivial = an accepted document with an object of >= 2 keys / array / null container, or a rejected corruption below the document root; distinct by (program, type, document hash)",
 		Assumes: []string{
 			"PostgreSQL is modelled by internal/pgx: AND/OR short-circuit left to right; a run-time error on the reject side counts as a rejection, on the accept side as a violation",
